@@ -15,6 +15,14 @@ func VerifNewWriter(e *actor.Engine, addr string, stream DRPCRemote_ReceiveStrea
 	return w
 }
 
+// VerifNewWriterBuf is VerifNewWriter for a node configured WithBufferSize(buf).
+func VerifNewWriterBuf(e *actor.Engine, addr string, stream DRPCRemote_ReceiveStream, conn net.Conn, buf int) actor.Processer {
+	w := newStreamWriter(e, nil, addr, nil, buf).(*streamWriter)
+	w.stream = stream
+	w.rawconn = conn
+	return w
+}
+
 func VerifDeliver(target, sender *actor.PID, msg any) any {
 	return &streamDeliver{target: target, sender: sender, msg: msg}
 }
